@@ -444,6 +444,16 @@ def scopeOf (pid : String) : List Instr :=
     | .stk _ .id => false
     | .stk _ _ => true
     | _ => false
+  | "C17" => Instr.all.filter fun i => match i with
+    | .io _ => true
+    | _ => false
+  | "C18" => Instr.all.filter fun i => match i with
+    | .graph _ => true
+    | _ => false
+  | "C20" => [.list .nbIds, .list .nbBvals, .list .nbIvals, .list .nbFvals]
+  | "C12" => [.code .rand]
+  | "C13" => Instr.all.filter fun i => isRand i && i != .code .rand
+  | "C16" | "C03" | "C11" => []
   | _ => Instr.all
 
 def evalProps (i : Instr) (pre : State) (post : Option State) : String :=
